@@ -17,7 +17,8 @@ EXPLANATION = ('R1: Parser::parse returns Ok only on the edge where the merged e
 ASSUMPTIONS = ['absence of hangs and stack exhaustion is not decided (depth is a run-time quantity)', 'line/column values come from the ANTLR runtime token positions and are not decided',
                'antlr4rust reports every syntax error it recovers from to the installed listeners']
 
-PARSER_FILES = re.compile(r'^antlr/src/(parser|macros|parse|references|lib|reference)\.rs|^antlr/src/ast/')
+# every hand-written source file of the parser crate (also ones added later); gen/ is the ANTLR output, trusted apart from the extracted facts
+PARSER_FILES = re.compile(r'^antlr/src/(?!gen/)')
 PARSE = 'cel_parser::parser::Parser::parse'
 ERROR_CONTEXTS = ['UnaryContext', 'MemberContext', 'PrimaryContext', 'EscapeIdentContext', 'LiteralContext']
 
